@@ -46,6 +46,7 @@ func (s *Server) backgroundExpireObjects(now time.Time) {
 		if err := s.writeAOF(msg.Args, &d); err != nil {
 			log.Fatal(err)
 		}
+		verifPoint(s, "expire.del", msg.Args, d.updated, nano)
 	}
 	if len(msgs) > 0 {
 		log.Debugf("Expired %d objects\n", len(msgs))
@@ -77,6 +78,7 @@ func (s *Server) backgroundExpireHooks(now time.Time) {
 		if err := s.writeAOF(msg.Args, &d); err != nil {
 			log.Fatal(err)
 		}
+		verifPoint(s, "expire.delhook", msg.Args, d.updated)
 	}
 	if len(msgs) > 0 {
 		log.Debugf("Expired %d hooks\n", len(msgs))
